@@ -48,7 +48,11 @@ Record oaction := mkOA {
 
 (* ---- oracles ---------------------------------------------------------------- *)
 
-Record oracle := mkO { o_fm : N; o_puts : list (N * N) }.
+(* o_err: the error group.Wait returned for the batch, when it returned one.
+   Several goroutines of the errgroup can fail (Puts with different codes,
+   AcquireSemaphore on a cancelled context); the first one to report wins,
+   which the Go scheduler decides. *)
+Record oracle := mkO { o_fm : N; o_puts : list (N * N); o_err : N }.
 Record aoracle := mkAO { ao_puts : list (option oracle); ao_flush : oracle; ao_final : N }.
 
 (* ---- helpers ------------------------------------------------------------------ *)
@@ -95,14 +99,30 @@ Definition was_put (puts : list (N * N)) (d : N) : bool := existsb (fun p => fst
 Definition eff (exp : list N) (o : oracle) : list (N * N) :=
   if o_fm o =? 0 then filter (fun p => memN (fst p) exp) (o_puts o) else [].
 
+(* Some failed Put of the batch returned code [e]. *)
+Definition failed_code (ps : list (N * N)) (e : N) : bool :=
+  existsb (fun p => negb (snd p =? 0) && (snd p =? e)) ps.
+
+(* util.StatusFromContext of a done context: CANCELLED or DEADLINE_EXCEEDED *)
+Definition ctx_code (e : N) : bool := (e =? 1) || (e =? 4).
+
+(* The errors group.Wait can return: the code of a failed Put, or, if a Put
+   was not issued (AcquireSemaphore saw a done context: the errgroup's after
+   a failure, or the caller's), the context's code. *)
+Definition admissible (ps : list (N * N)) (all_issued : bool) (e : N) : bool :=
+  negb (e =? 0) && (failed_code ps e || (negb all_issued && ctx_code e)).
+
 Definition flush_error (ferr : N) (exp : list N) (o : oracle) : N :=
   if negb (o_fm o =? 0) then o_fm o
   else match exp with
        | [] => ferr
        | _ =>
-         let ff := first_failure (eff exp o) in
-         if negb (ff =? 0) then ff
-         else if forallb (was_put (eff exp o)) exp then ferr
+         let ps := eff exp o in
+         let ff := first_failure ps in
+         let all_issued := forallb (was_put ps) exp in
+         if (ff =? 0) && all_issued then ferr
+         else if admissible ps all_issued (o_err o) then o_err o
+         else if negb (ff =? 0) then ff
          else 1   (* a Put was not issued: AcquireSemaphore saw a cancelled context *)
        end.
 
@@ -113,9 +133,19 @@ Definition stored (exp : list N) (o : oracle) : list N :=
    batch, each at most once.  (Used by the correspondence check only.) *)
 Fixpoint nodupN (l : list N) : bool :=
   match l with [] => true | x :: t => negb (memN x t) && nodupN t end.
+Definition err_possible (exp : list N) (o : oracle) : bool :=
+  if negb (o_fm o =? 0) then true
+  else match exp with
+       | [] => true
+       | _ =>
+         let ps := eff exp o in
+         let all_issued := forallb (was_put ps) exp in
+         if (first_failure ps =? 0) && all_issued then true else admissible ps all_issued (o_err o)
+       end.
 Definition puts_possible (exp : list N) (o : oracle) : bool :=
-  if negb (o_fm o =? 0) then match o_puts o with [] => true | _ => false end
-  else forallb (fun p => memN (fst p) exp) (o_puts o) && nodupN (map fst (o_puts o)).
+  (if negb (o_fm o =? 0) then match o_puts o with [] => true | _ => false end
+   else forallb (fun p => memN (fst p) exp) (o_puts o) && nodupN (map fst (o_puts o)))
+  && err_possible exp o.
 
 (* flushLocked: every pending buffer is consumed (handed to the CAS or
    discarded by the deferred function), the batch is emptied. *)
@@ -129,7 +159,7 @@ Definition flush_locked (b : bstore) (cas : list N) (o : oracle)
 Definition flush_call (b : bstore) (cas : list N) (o : oracle) (ret : N) : ocall :=
   mkOC ret (Some (sortN (keys b), o_fm o)) (eff (expected b cas) o).
 
-Definition no_oracle := mkO 0 [].
+Definition no_oracle := mkO 0 [] 0.
 
 (* batchedStoreBlobAccess.Put.  Returns the new store and CAS, the call as
    observed, the buffers consumed during the call, and whether the oracle
